@@ -117,8 +117,9 @@ func nlAfter(stmts []Node, comments map[Node]string) map[int]bool {
 			beforeFuncIdx := accums[i+1].idx - 1
 			indices[beforeFuncIdx] = true
 		case i+2 < length && accums[i+1].stmtType == "comment" && accums[i+2].stmtType == "func":
-			// add NL before comments of func decl (after stmt or other func decl)
-			indices[accum.idx] = true
+			// add NL before comments of func decl (after stmt or other func decl):
+			// after the last statement of the run, not its first
+			indices[accums[i+1].idx-1] = true
 		}
 	}
 	return indices
